@@ -505,6 +505,7 @@ fn case(t0: &mut Tape, w: &Worker) -> CaseResult {
     let mut cs = gen::gen_conf_stream(t0, &ConfOpts { max_links: 4, max_hbfs: 3, big_16: 1, ..Default::default() });
     let e = ot.below(N_ENTRIES);
     let mut out = CaseOut::default();
+    let pristine = cs.clone();
     let Some(fault) = apply_fault(e, &mut ot, &mut cs) else {
         out.labels.push(format!("not_applicable:entry{e}"));
         out.excluded.push(format!("entry {e} not applicable to the generated stream"));
@@ -515,7 +516,35 @@ fn case(t0: &mut Tape, w: &Worker) -> CaseResult {
         out.labels.push("not_applicable:layout".into());
         return Ok(out);
     }
+    // the same violation a second time elsewhere in the stream (rules that do not alter how the following words are read):
+    // every occurrence must be reported, not only the first
+    let mut second_loc: Option<Loc> = None;
+    if !fault.stateful && (fault.name.starts_with("rdh:") || fault.name.contains(":reserved")) && ot.chance(1, 3) {
+        let mut probe = cs.clone();
+        if let Some(f2) = apply_fault(e, &mut ot, &mut probe) {
+            let same = match (&f2.loc, &fault.loc) {
+                (Loc::Rdh(a, b), Loc::Rdh(c, d)) => a == c && b == d,
+                (Loc::Word(a, b, c), Loc::Word(d, e2, f)) => a == d && b == e2 && c == f,
+                _ => false,
+            };
+            if !same && f2.name == fault.name {
+                // where the two words were equal before, make the two faulty words byte-identical as well
+                if let (Loc::Word(a, b, c), Loc::Word(d, e2, f)) = (&fault.loc, &f2.loc) {
+                    if pristine.stream.links[*a].packets[*b].words[*c] == pristine.stream.links[*d].packets[*e2].words[*f] {
+                        probe.stream.links[*d].packets[*e2].words[*f] = cs.stream.links[*a].packets[*b].words[*c];
+                    }
+                }
+                cs = probe;
+                second_loc = Some(f2.loc);
+                out.labels.push("same_fault_twice".into());
+            }
+        }
+    }
     let (bytes, lay) = cs.stream.encode();
+    let expect_off2 = second_loc.as_ref().map(|l| match l {
+        Loc::Rdh(li, pi) => lay.packets[cs.stream.global_index(&lay, *li, *pi)].offset,
+        Loc::Word(li, pi, wi) => cs.stream.word_offset(&lay, cs.stream.global_index(&lay, *li, *pi), *wi),
+    });
     let expect_off = match &fault.loc {
         Loc::Rdh(li, pi) => lay.packets[cs.stream.global_index(&lay, *li, *pi)].offset,
         Loc::Word(li, pi, wi) => cs.stream.word_offset(&lay, cs.stream.global_index(&lay, *li, *pi), *wi),
@@ -570,6 +599,15 @@ fn case(t0: &mut Tape, w: &Worker) -> CaseResult {
                     detail("missing detection"),
                 ));
             }
+            if let Some(o2) = expect_off2 {
+                if !msgs.iter().any(|m| fam(m) && m.offset == o2) {
+                    return Err(Fail::new(
+                        format!("C02:second-occurrence-not-detected:{}:{}", fault.name, mode.name()),
+                        format!("{}: `{}` occurs twice; the occurrence at {o2:#X} was not reported with E{:?} (the one at {expect_off:#X} was)", mode.name(), fault.name, fault.codes),
+                        detail("second occurrence"),
+                    ));
+                }
+            }
             if o.code != Some(n as i32) {
                 return Err(Fail::new(format!("C02:exit-status:{}", mode.name()), format!("errors reported but exit status is {:?}, configured {n}", o.code), detail("exit status")));
             }
@@ -617,7 +655,7 @@ pub fn build() -> Property {
                18 RDH sanity entries (header id, size, FEE layer 7 / stave 48..63 / each reserved bit, priority, reserved words, BC 0xDEC.., stop bit > 1, trigger 0 / each spare bit, detector bits 12..23, DW 2.., format 3.., system id), \
                4 RDH running entries (pages counter, trigger / orbit changed inside an HBF, same orbit after stop), padding > 15, identifier and reserved-bit rules of IHW/TDH/TDT/DDW0 (+ TDH without trigger, DDW0 index), unknown identifiers in the three choice states \
                with boundary ids, lane not active, OB input 7, DDW0 with stop 0 / page 0, IHW on a stop page, continuation bit wrong either way, continuation TDH differing in bc / orbit / type, TDH orbit / bc / type vs RDH, decreasing TDH bc, CDW index not reset, stave-level frame without data / lane missing / chip bunch counter / inner-barrel chip id. \
-               Each mutation is made on the spec so that everything else stays conforming. Executed on the real CLI in all five modes with -E n (a share of the runs with neutral options: -v 0/2/3, -d, -e 0, a custom-checks file whose keys are absent or agree with the data). Oracle: in every mode where the rule is documented as active an error of the family at the layout-map offset of the mutated RDH / word \
+               Each mutation is made on the spec so that everything else stays conforming. For RDH sanity and reserved-bit entries a third of the cases apply the same violation a second time elsewhere (byte-identical where the words were equal): every occurrence must be reported. Executed on the real CLI in all five modes with -E n (a share of the runs with neutral options: -v 0/2/3, -d, -e 0, a custom-checks file whose keys are absent or agree with the data). Oracle: in every mode where the rule is documented as active an error of the family at the layout-map offset of the mutated RDH / word \
                and exit n; a purely stateful entry is not reported by `check sanity*`, which stay completely silent (exit 0). Follow-on errors elsewhere are allowed. Distinct = (entry, value class, position class, mode).",
         assumptions: vec![
             "RDH0 fields of the very first packet (documented pre-check), header-id change on a link's first packet and page-counter entries inside a link's first two packets are outside the domain".into(),
